@@ -375,113 +375,139 @@ fn evaluate_boolean(
     layers: impl Iterator<Item = u16> + Clone,
     default_layer: u16,
 ) -> bool {
-    let mut ret = true;
+    // The empty expression is the "always" case.
+    if bool_expr.is_empty() {
+        return true;
+    }
+    // The expression is a flat prefix encoding: an operator opcode carries the index at which
+    // its operands end. The operator currently being evaluated is kept in `current_*`; its
+    // ancestors are on the stack. `acc` is the value accumulated over the operands seen so far:
+    // for `And` "all true so far", for `Or` and `Not` "at least one true so far"; `Not` negates
+    // when it is closed. The outermost list is an implicit `Or`.
     let mut current_index = 0;
     let mut current_end_index = bool_expr.len();
     let mut current_op = Or;
+    let mut current_acc = false;
+    // An operator without any operand evaluates to true, like the empty expression.
+    let mut current_has_operand = false;
     let mut stack: arraydeque::ArrayDeque<
-        OperatorAndEndIndex,
+        (OperatorAndEndIndex, bool),
         MAX_BOOL_EXPR_DEPTH,
         arraydeque::behavior::Saturating,
     > = Default::default();
-    while current_index < bool_expr.len() {
-        if current_index >= current_end_index {
+    loop {
+        // Close every operator whose operands are exhausted (or short-circuited) and hand its
+        // value to its parent as an operand.
+        let mut operand = None;
+        while current_index >= current_end_index {
+            let closed_value = match current_op {
+                _ if !current_has_operand => true,
+                And | Or => current_acc,
+                Not => !current_acc,
+            };
             match stack.pop_back() {
-                Some(operator) => {
-                    (current_op, current_end_index) = (operator.op, operator.idx);
+                None => return closed_value,
+                Some((parent, parent_acc)) => {
+                    (current_op, current_end_index, current_acc) =
+                        (parent.op, parent.idx, parent_acc);
+                    operand = Some(closed_value);
+                    break;
                 }
-                None => break,
             }
-            // Short-circuiting logic
-            if matches!((ret, current_op), (true, Or | Not) | (false, And))
-                || current_index >= current_end_index
+        }
+        let value = match operand {
+            Some(v) => v,
+            None => match bool_expr[current_index]
+                .opcode_type(bool_expr.get(current_index + 1).copied())
             {
-                if current_op == Not {
-                    ret = false;
+                OpCodeType::BooleanOp(operator) => {
+                    let res = stack.push_back((
+                        OperatorAndEndIndex {
+                            op: current_op,
+                            idx: current_end_index,
+                        },
+                        current_acc,
+                    ));
+                    assert!(
+                        res.is_ok(),
+                        "exceeded boolean op depth {}",
+                        MAX_BOOL_EXPR_DEPTH
+                    );
+                    current_op = operator.op;
+                    current_end_index = operator.idx.min(bool_expr.len());
+                    current_acc = operator.op == And;
+                    current_has_operand = false;
+                    current_index += 1;
+                    continue;
                 }
-                current_index = current_end_index;
-                continue;
-            }
-        }
-        match bool_expr[current_index].opcode_type(bool_expr.get(current_index + 1).copied()) {
-            OpCodeType::BooleanOp(operator) => {
-                let res = stack.push_back(OperatorAndEndIndex {
-                    op: current_op,
-                    idx: current_end_index,
-                });
-                assert!(
-                    res.is_ok(),
-                    "exceeded boolean op depth {}",
-                    MAX_BOOL_EXPR_DEPTH
-                );
-                (current_op, current_end_index) = (operator.op, operator.idx);
-                current_index += 1;
-                continue;
-            }
-            OpCodeType::KeyCode(kc) => {
-                ret = key_codes.clone().any(|kc_input| kc_input as u16 == kc);
-            }
-            OpCodeType::HistoricalKeyCode(hkc) => {
-                ret = historical_keys
-                    .clone()
-                    .nth(hkc.how_far_back as usize)
-                    .map(|he| he.event as u16 == hkc.key_code)
-                    .unwrap_or(false);
-            }
-            OpCodeType::TicksSinceLessThan(tsnk) => {
-                ret = historical_keys
-                    .clone()
-                    .nth(tsnk.nth_key.into())
-                    .map(|he| he.ticks_since_occurrence <= tsnk.ticks_since)
-                    .unwrap_or(false);
-            }
-            OpCodeType::TicksSinceGreaterThan(tsnk) => {
-                ret = historical_keys
-                    .clone()
-                    .nth(tsnk.nth_key.into())
-                    .map(|he| he.ticks_since_occurrence > tsnk.ticks_since)
-                    .unwrap_or(false);
-            }
-            OpCodeType::Input(coord) => {
-                // opcode has size 2
-                current_index += 1;
-                ret = inputs.clone().any(|c| c == coord)
-            }
-            OpCodeType::HistoricalInput(hki) => {
-                // opcode has size 2
-                current_index += 1;
-                ret = historical_inputs
-                    .clone()
-                    .nth(hki.how_far_back as usize)
-                    .map(|he| he.event == hki.input)
-                    .unwrap_or(false)
-            }
-            OpCodeType::Layer(layer) => {
-                // opcode has size 2
-                current_index += 1;
-                ret = layers.clone().next().map(|l| l == layer).unwrap_or(false)
-            }
-            OpCodeType::BaseLayer(base_layer) => {
-                // opcode has size 2
-                current_index += 1;
-                ret = default_layer == base_layer;
-            }
+                OpCodeType::KeyCode(kc) => {
+                    current_index += 1;
+                    key_codes.clone().any(|kc_input| kc_input as u16 == kc)
+                }
+                OpCodeType::HistoricalKeyCode(hkc) => {
+                    current_index += 1;
+                    historical_keys
+                        .clone()
+                        .nth(hkc.how_far_back as usize)
+                        .map(|he| he.event as u16 == hkc.key_code)
+                        .unwrap_or(false)
+                }
+                OpCodeType::TicksSinceLessThan(tsnk) => {
+                    current_index += 1;
+                    historical_keys
+                        .clone()
+                        .nth(tsnk.nth_key.into())
+                        .map(|he| he.ticks_since_occurrence <= tsnk.ticks_since)
+                        .unwrap_or(false)
+                }
+                OpCodeType::TicksSinceGreaterThan(tsnk) => {
+                    current_index += 1;
+                    historical_keys
+                        .clone()
+                        .nth(tsnk.nth_key.into())
+                        .map(|he| he.ticks_since_occurrence > tsnk.ticks_since)
+                        .unwrap_or(false)
+                }
+                OpCodeType::Input(coord) => {
+                    // opcode has size 2
+                    current_index += 2;
+                    inputs.clone().any(|c| c == coord)
+                }
+                OpCodeType::HistoricalInput(hki) => {
+                    // opcode has size 2
+                    current_index += 2;
+                    historical_inputs
+                        .clone()
+                        .nth(hki.how_far_back as usize)
+                        .map(|he| he.event == hki.input)
+                        .unwrap_or(false)
+                }
+                OpCodeType::Layer(layer) => {
+                    // opcode has size 2
+                    current_index += 2;
+                    layers.clone().next().map(|l| l == layer).unwrap_or(false)
+                }
+                OpCodeType::BaseLayer(base_layer) => {
+                    // opcode has size 2
+                    current_index += 2;
+                    default_layer == base_layer
+                }
+            },
         };
-        if current_op == Not {
-            ret = !ret;
+        // Accumulate the operand into the current operator, short-circuiting when decided.
+        current_has_operand = true;
+        match (current_op, value) {
+            (And, false) => {
+                current_acc = false;
+                current_index = current_end_index;
+            }
+            (Or | Not, true) => {
+                current_acc = true;
+                current_index = current_end_index;
+            }
+            _ => {}
         }
-        if matches!((ret, current_op), (true, Or) | (false, And | Not)) {
-            current_index = current_end_index;
-            continue;
-        }
-        current_index += 1;
     }
-    while let Some(OperatorAndEndIndex { op, .. }) = stack.pop_back() {
-        if op == Not {
-            ret = !ret;
-        }
-    }
-    ret
 }
 
 #[cfg(test)]
